@@ -457,6 +457,8 @@ class C17:
                 # them in between
                 op["tglobals"] = rng.choice([None, None, {"tg": "T1"}, {"tg": "T2", "site": "TS"}, {}])
             op["fp"] = rng.chance(0.5)
+            if rng.chance(0.3):
+                op["call"] = "positional"
             if op["mode"] == "async" and rng.chance(0.12):
                 op["cancel_after"] = round(rng.random() * 0.01, 5)
             return op
@@ -695,12 +697,17 @@ class C17:
             clock_at_invoke = CLOCK.us
             cancelled = False
             if mode == "sync":
-                got = outcome(lambda: get_target(env, mains, op).render(**data))
+                if op.get("call") == "positional":     # render(data): ONE positional dict, no keyword arguments
+                    got = outcome(lambda: get_target(env, mains, op).render(data))
+                else:
+                    got = outcome(lambda: get_target(env, mains, op).render(**data))
             else:
                 in_flight[me] = tkey
 
                 async def go():
                     t = await get_target_async(env, mains, op)
+                    if op.get("call") == "positional":
+                        return await t.render_async(data)
                     return await t.render_async(**data)
                 try:
                     if op.get("cancel_after") is not None:
